@@ -1,7 +1,7 @@
 (* Props/C23.v — Expression evaluation obeys Cypher laws.
    Only statements, `exact`, and Print Assumptions. *)
 From NDB Require Import Base.Bytes Cypher.Value Cypher.Compare Cypher.Logic Cypher.Arith Cypher.Eval
-  Cypher.Logic_proofs Cypher.Compare_proofs Cypher.Arith_proofs Cypher.Equality_proofs.
+  Cypher.Logic_proofs Cypher.Compare_proofs Cypher.Arith_proofs Cypher.Order_proofs Cypher.Equality_proofs Cypher.ListCompare_proofs.
 
 (* AND/OR/NOT are Kleene's connectives (false < null < true: AND = min, OR = max, NOT = flip),
    XOR is strict; for ALL values (anything that is not a boolean counts as null), hence in
@@ -127,3 +127,26 @@ Definition C23_eq_equivalence_all_statement : Prop :=
 Theorem C23_eq_equivalence_all : C23_eq_equivalence_all_statement.
 Proof. exact eq_equivalence_all. Qed.
 Print Assumptions C23_eq_equivalence_all.
+
+(* < <= > >= on lists and nested values: a < b is b > a and a <= b is b >= a for ALL values
+   without temporal strings (lists nested arbitrarily, nulls and NaN included); on lists < is the
+   negation of >= and > of <= (three-valued); and for lists without null/NaN/temporal strings
+   <= is (< or =), >= is (> or =), = holds exactly when <= and >= hold, and the ORDER BY order
+   says Equal exactly when = says true *)
+Definition C23_cmp_consistent_lists_statement : Prop :=
+  (forall tp a b, og tp a -> og tp b ->
+     cy_lt tp a b = cy_gt tp b a /\ cy_le tp a b = cy_ge tp b a) /\
+  (forall tp l r,
+     cy_lt tp (VList l) (VList r) = t_not (cy_ge tp (VList l) (VList r)) /\
+     cy_gt tp (VList l) (VList r) = t_not (cy_le tp (VList l) (VList r))) /\
+  (forall tp l r, both tp (VList l) -> both tp (VList r) ->
+     cy_le tp (VList l) (VList r) = t_or (cy_lt tp (VList l) (VList r)) (cy_eq (VList l) (VList r)) /\
+     cy_ge tp (VList l) (VList r) = t_or (cy_gt tp (VList l) (VList r)) (cy_eq (VList l) (VList r)) /\
+     (cy_eq (VList l) (VList r) = Some true <->
+        cy_le tp (VList l) (VList r) = Some true /\ cy_ge tp (VList l) (VList r) = Some true)) /\
+  (forall tp a b, both tp a -> both tp b -> (order_cmp tp a b = Eq <-> cy_eq a b = Some true)).
+Theorem C23_cmp_consistent_lists : C23_cmp_consistent_lists_statement.
+Proof.
+  exact (conj cmp_flip_all (conj cmp_neg_lists (conj cmp_eq_consistent_lists order_eq_iff_cy_eq))).
+Qed.
+Print Assumptions C23_cmp_consistent_lists.
